@@ -109,7 +109,7 @@ def gen_history(g, w, n_ops, probes=True):
                     cur = effective_default(c)
                     if cur is None and state[c]["delegated_bare"]:
                         continue
-                x = QualifiedName(Namespace(pfx, uri), loc)
+                x = w.qname(pfx, uri, loc)
                 q = w.vqn(c, x)
                 if q is None or q.uri != x.uri:
                     failures.append({"step": i, "scope": c, "kind": "a", "print": str(x), "uri": x.uri,
